@@ -135,8 +135,9 @@ var stateFuncs = []func(opcua.ConnState){nil, stateFn1, stateFn2}
 // argument source
 
 type argSrc struct {
-	r    *rng.R
-	desc []interface{}
+	r           *rng.R
+	desc        []interface{}
+	forceDialer int // >0: the next Dialer argument is of this kind (see Dialer below)
 }
 
 func hx(s string) string { return hex.EncodeToString([]byte(s)) }
@@ -283,7 +284,11 @@ func ackDesc(p *uacp.Acknowledge) interface{} {
 }
 func (a *argSrc) Dialer(opt, param string) *uacp.Dialer {
 	var d *uacp.Dialer
-	switch a.r.Intn(8) {
+	k := a.r.Intn(8)
+	if a.forceDialer > 0 {
+		k, a.forceDialer = a.forceDialer, 0
+	}
+	switch k {
 	case 0:
 		a.add(map[string]interface{}{"nil": true})
 		return nil
@@ -508,10 +513,34 @@ type progObs struct {
 }
 
 // plan: which option indices each client of program `index` uses (shared by parent and child through the seed)
+// partially filled dialers a caller may hand to opcua.Dialer: 1 = &uacp.Dialer{}, 2 = only the net.Dialer, 3 = only ClientACK
+var partialDialers = []int{1, 2, 3}
+
+func dialerIndex() int {
+	for i, g := range genOptions {
+		if g.Name == "Dialer" {
+			return i
+		}
+	}
+	return -1
+}
+
+// systematic programs before the random ones
+func systematic() int {
+	n := len(genOptions)
+	if dialerIndex() < 0 {
+		return 2 * n
+	}
+	return 2*n + len(partialDialers)*n
+}
+
 func plan(seed uint64, index int) (kind string, clients [][]int, r *rng.R) {
 	r = rng.New(seed*1000003 + uint64(index))
 	n := len(genOptions)
 	switch {
+	case index >= 2*n && index < systematic():
+		// NewClient(Dialer(<partially filled dialer>), X) for every option X, then a default client
+		return fmt.Sprintf("dialer%d-then", partialDialers[(index-2*n)/n]), [][]int{{dialerIndex(), (index - 2*n) % n}, {}}, r
 	case index < n: // every option on its own, followed by a default client
 		return "single", [][]int{{index}, {}}, r
 	case index < 2*n: // a default client first, then the option, then a default client again
@@ -540,6 +569,9 @@ func runProgram(seed uint64, index int) progObs {
 	var made []*opcua.Client
 	for ci, optIdx := range clients {
 		a := &argSrc{r: r}
+		if strings.HasPrefix(kind, "dialer") && ci == 0 {
+			a.forceDialer = int(kind[6] - '0')
+		}
 		var opts []opcua.Option
 		var oo []optObs
 		rs := int64(seed)*7919 + int64(index)*31 + int64(ci)
@@ -600,7 +632,7 @@ func runProgram(seed uint64, index int) progObs {
 
 func main() {
 	seed := flag.Uint64("seed", 1, "seed")
-	n := flag.Int("n", 100, "number of random programs (after the 2 x #options systematic ones)")
+	n := flag.Int("n", 100, "number of random programs (after the systematic ones)")
 	dir := flag.String("dir", "", "fixture directory")
 	one := flag.Int("one", -1, "child mode: run program <index> and print its observation")
 	from := flag.Int("from", 0, "first program index")
@@ -629,7 +661,7 @@ func main() {
 		os.Exit(2)
 	}
 	self, _ := os.Executable()
-	total := 2*len(genOptions) + *n
+	total := systematic() + *n
 	results := make([]string, total)
 	var wg sync.WaitGroup
 	sem := make(chan struct{}, 12)
